@@ -253,8 +253,10 @@ def show_func(filename, start_lineno, func_name, timings, unit,
         stream.write(f'File: {filename}\n')
         stream.write(f'Function: {func_name} at line {start_lineno}\n')
         if os.path.exists(filename):
-            # Clear the cache to ensure that we get up-to-date results.
-            linecache.clearcache()
+            # Make sure that we get up-to-date results for this file - but
+            # leave the other entries alone: sources that exist only in the
+            # cache (the cells of an IPython session) cannot be read again
+            linecache.checkcache(filename)
         all_lines = linecache.getlines(filename)
         sublines = inspect.getblock(all_lines[start_lineno - 1:])
     else:
